@@ -10,6 +10,7 @@ import GormModel.Lemmas.Where
 import GormModel.Props.C08
 import GormModel.Gen.Pipelines
 import GormModel.Gen.GuardFacts
+import GormModel.Gen.GuardWhereFacts
 namespace Gorm
 
 /-- a chain call contributes a condition iff its form is effective -/
@@ -75,9 +76,9 @@ theorem C09_where_length (ops : List (ChainOp × Form)) : (chainExprs ops).lengt
 /-- BLOCKS: without AllowGlobalUpdate, a chain none of whose condition calls is effective and a model value
     without primary key is rejected — on a plain model (no WHERE entry at all) and on a soft-delete model
     (the filter alone does not count) -/
-theorem C09_blocks (ops : List (ChainOp × Form)) (soft : Option Atom)
+theorem C09_blocks (ce : Bool) (ops : List (ChainOp × Form)) (soft : Option Atom)
     (h : ∀ p ∈ ops, effective p.2 = false) :
-    missingWhere false (guardState ops none soft false) = true := by
+    missingWhere ce false (guardState ops none soft false) = true := by
   have hc : effCount ops = 0 := by
     simp only [effCount, List.length_eq_zero_iff, List.filter_eq_nil_iff]
     intro p hp; simp [h p hp]
@@ -90,9 +91,9 @@ theorem C09_blocks (ops : List (ChainOp × Form)) (soft : Option Atom)
 
 /-- ADMITS: a chain with at least one effective condition call, or a model value with a primary key, is never
     rejected on this ground — plain or soft-delete model, scoped or Unscoped -/
-theorem C09_admits (ops : List (ChainOp × Form)) (pk : Option Atom) (soft : Option Atom) (unscoped : Bool)
+theorem C09_admits (ce : Bool) (ops : List (ChainOp × Form)) (pk : Option Atom) (soft : Option Atom) (unscoped : Bool)
     (h : (∃ p ∈ ops, effective p.2 = true) ∨ pk.isSome = true) :
-    missingWhere false (guardState ops pk soft unscoped) = false := by
+    missingWhere ce false (guardState ops pk soft unscoped) = false := by
   have hne : chainExprs ops ++ (pk.map Ex.atom).toList ≠ [] := by
     rcases h with ⟨p, hp, he⟩ | hk
     · have : effCount ops ≥ 1 := by
@@ -124,9 +125,9 @@ theorem C09_admits (ops : List (ChainOp × Form)) (pk : Option Atom) (soft : Opt
 
 /-- BLOCKS also on a REUSED statement: after a condition-free query on the same statement (its soft-delete filter and
     marker are still there) a condition-free Update/Delete is rejected — scoped or Unscoped -/
-theorem C09_blocks_after_query (ops : List (ChainOp × Form)) (soft : Option Atom) (unscoped : Bool)
+theorem C09_blocks_after_query (ce : Bool) (ops : List (ChainOp × Form)) (soft : Option Atom) (unscoped : Bool)
     (h : ∀ p ∈ ops, effective p.2 = false) :
-    missingWhere false (guardStateAfterQuery ops none soft unscoped) = true := by
+    missingWhere ce false (guardStateAfterQuery ops none soft unscoped) = true := by
   have hc : effCount ops = 0 := by
     simp only [effCount, List.length_eq_zero_iff, List.filter_eq_nil_iff]
     intro p hp; simp [h p hp]
@@ -138,7 +139,7 @@ theorem C09_blocks_after_query (ops : List (ChainOp × Form)) (soft : Option Ato
   | some f => cases unscoped <;> simp [guardStateAfterQuery, hnil, missingWhere, softDeleteModify]
 
 /-- AllowGlobalUpdate (config or session) switches the guard off -/
-theorem C09_allow_global (s : WhereState) : missingWhere true s = false := by simp [missingWhere]
+theorem C09_allow_global (ce : Bool) (s : WhereState) : missingWhere ce true s = false := by simp [missingWhere]
 
 /-! ### statement reuse: the guard after ANY sequence of earlier calls on the same statement -/
 
@@ -146,53 +147,124 @@ theorem C09_allow_global (s : WhereState) : missingWhere true s = false := by si
     anywhere, read AND write finishers in every order (Count/Find/First/Take/Last/Pluck/Scan/Rows/Update/Delete) — a
     write finisher on a key-less model value is rejected; plain or soft-delete model.  (`_partial`: the hypothesis
     `opBare` excludes `Clauses(clause.Where{…})` calls, see `C09_empty_where_counterexample`.) -/
-theorem C09_blocks_reuse_partial (cfg : StmtCfg) (hk : cfg.modelKey = []) (hag : cfg.allowGlobal = false)
+theorem C09_blocks_reuse_partial (ce : Bool) (cfg : StmtCfg) (hk : cfg.modelKey = []) (hag : cfg.allowGlobal = false)
     (ops : List StmtOp) (ho : ∀ op ∈ ops, opBare op = true) (k : FinKind) (hw : k.isWrite = true) (same : Bool) :
-    finRejected cfg (stmtRun cfg StmtState.fresh ops) k [] same = true :=
-  bare_rejected cfg hk hag _ (stmtRun_bare cfg hk _ ops (Or.inl rfl) ho) k hw same
+    finRejected ce cfg (stmtRun cfg StmtState.fresh ops) k [] same = true :=
+  bare_rejected ce cfg hk hag _ (stmtRun_bare cfg hk _ ops (Or.inl rfl) ho) k hw same
 
 /-- ADMITS on a reused statement: once any call supplied a condition (`Where/Not/Or` with a non-empty form, or a
     non-empty `clause.Where`), no later write finisher on that statement is rejected on this ground, whatever ran in
     between -/
-theorem C09_admits_reuse (cfg : StmtCfg) (ops1 ops2 : List StmtOp) (op : StmtOp) (ho : opEffective op = true)
+theorem C09_admits_reuse (ce : Bool) (cfg : StmtCfg) (ops1 ops2 : List StmtOp) (op : StmtOp) (ho : opEffective op = true)
     (k : FinKind) (vk : List Atom) (same : Bool) :
-    finRejected cfg (stmtRun cfg StmtState.fresh (ops1 ++ op :: ops2)) k vk same = false := by
+    finRejected ce cfg (stmtRun cfg StmtState.fresh (ops1 ++ op :: ops2)) k vk same = false := by
   have h1 : MarkerInv cfg (stmtRun cfg StmtState.fresh ops1) := stmtRun_markerInv cfg _ ops1 (markerInv_fresh cfg)
   have h2 := stmtStep_effective_rich cfg _ op (markerInv_nonempty cfg _ h1) ho
   have h3 := stmtRun_rich cfg _ ops2 h2
   have : stmtRun cfg StmtState.fresh (ops1 ++ op :: ops2) = stmtRun cfg (stmtStep cfg (stmtRun cfg StmtState.fresh ops1) op) ops2 := by
     simp [stmtRun, List.foldl_append]
   rw [this]
-  exact rich_admitted cfg _ h3 k vk same
+  exact rich_admitted ce cfg _ h3 k vk same
 
 /-- … and a write whose value (or Model) carries a primary key is admitted after any history -/
-theorem C09_admits_keyed_reuse (cfg : StmtCfg) (ops : List StmtOp) (k : FinKind) (vk : List Atom) (same : Bool)
+theorem C09_admits_keyed_reuse (ce : Bool) (cfg : StmtCfg) (ops : List StmtOp) (k : FinKind) (vk : List Atom) (same : Bool)
     (hkeys : writeKeys cfg k vk same ≠ [])
     (hset : k = .update → (stmtRun cfg StmtState.fresh ops).keys.contains "SET" = false) :
-    finRejected cfg (stmtRun cfg StmtState.fresh ops) k vk same = false :=
-  keyed_admitted cfg _ (markerInv_nonempty cfg _ (stmtRun_markerInv cfg _ ops (markerInv_fresh cfg))) k vk same hkeys hset
+    finRejected ce cfg (stmtRun cfg StmtState.fresh ops) k vk same = false :=
+  keyed_admitted ce cfg _ (markerInv_nonempty cfg _ (stmtRun_markerInv cfg _ ops (markerInv_fresh cfg))) k vk same hkeys hset
 
-/-- FINDING F26 (kernel-checked): `Clauses(clause.Where{})` — a WHERE entry with ZERO expressions — supplies no
-    condition, yet on a plain model (or Unscoped) the guard lets the write through: `checkMissingWhereConditions` looks
-    at the PRESENCE of the entry and counts expressions only next to the soft-delete marker.  The statement
-    `UPDATE … WHERE ` / `DELETE FROM … WHERE ` is sent (and refused by the database's parser). -/
+/-- FINDING F26 (kernel-checked; the guard as written BEFORE the repair, `countsExprs = false`):
+    `Clauses(clause.Where{})` — a WHERE entry with ZERO expressions — supplies no condition, yet on a plain model (or
+    Unscoped) the guard lets the write through: `checkMissingWhereConditions` looks at the PRESENCE of the entry and
+    counts expressions only next to the soft-delete marker.  The statement `UPDATE … WHERE ` / `DELETE FROM … WHERE ` is
+    sent (and refused by the database's parser). -/
 theorem C09_empty_where_counterexample :
     let cfg : StmtCfg := { soft := none, modelKey := [], allowGlobal := false }
     opEffective (.clauseWhere []) = false ∧
-    finRejected cfg (stmtRun cfg StmtState.fresh [.clauseWhere []]) .update [] false = false ∧
-    finRejected cfg (stmtRun cfg StmtState.fresh [.clauseWhere []]) .delete [] false = false ∧
+    finRejected false cfg (stmtRun cfg StmtState.fresh [.clauseWhere []]) .update [] false = false ∧
+    finRejected false cfg (stmtRun cfg StmtState.fresh [.clauseWhere []]) .delete [] false = false ∧
     -- the same on a soft-delete model once Unscoped
-    finRejected { cfg with soft := some { col := "deleted_at", kind := .eq, val := .nil, id := 0 } }
+    finRejected false { cfg with soft := some { col := "deleted_at", kind := .eq, val := .nil, id := 0 } }
       (stmtRun { cfg with soft := some { col := "deleted_at", kind := .eq, val := .nil, id := 0 } } StmtState.fresh [.unscoped, .clauseWhere []])
       .delete [] false = false := by
   decide
 
 /-- … while on a soft-delete model that is not Unscoped the empty entry is harmless: filter + marker, one expression -/
-theorem C09_empty_where_soft_blocks (f : Atom) (k : FinKind) (hw : k.isWrite = true) (same : Bool) :
+theorem C09_empty_where_soft_blocks (ce : Bool) (f : Atom) (k : FinKind) (hw : k.isWrite = true) (same : Bool) :
     let cfg : StmtCfg := { soft := some f, modelKey := [], allowGlobal := false }
-    finRejected cfg (stmtRun cfg StmtState.fresh [.clauseWhere []]) k [] same = true := by
+    finRejected ce cfg (stmtRun cfg StmtState.fresh [.clauseWhere []]) k [] same = true := by
   cases k <;> simp_all [FinKind.isWrite, finRejected, stmtRun, stmtStep, finWhere, writeKeys, modifyBy, softDeleteModify,
     addWhere, missingWhere, StmtState.fresh, mkAnd]
+
+/-! ### the repaired guard (`countsExprs = true`): F26 is gone, nothing else changed -/
+
+/-- BLOCKS on a reused statement, FULL STRENGTH (guard that counts expressions): after any sequence of calls none of
+    which supplies a condition — empty condition forms, `Clauses(clause.Where{})` with no expression, Unscoped toggled
+    anywhere, read and write finishers in every order — a write finisher on a key-less model value is rejected; plain or
+    soft-delete model.  `opCondFree` is exactly "not `opEffective`" on the condition-carrying calls
+    (`C09_condFree_iff_not_effective`): the hypothesis that excluded `clause.Where{}` is gone. -/
+theorem C09_blocks_reuse (cfg : StmtCfg) (hk : cfg.modelKey = []) (hag : cfg.allowGlobal = false)
+    (ops : List StmtOp) (ho : ∀ op ∈ ops, opCondFree op = true) (k : FinKind) (hw : k.isWrite = true) (same : Bool) :
+    finRejected true cfg (stmtRun cfg StmtState.fresh ops) k [] same = true :=
+  bareEW_rejected cfg hk hag _ (stmtRun_bareEW cfg hk _ ops (bareEW_fresh cfg) ho) k hw same
+
+/-- the blocking side and the admitting side now meet: a `Where/Not/Or/Clauses(clause.Where{…})` call is condition-free
+    iff it is not effective (no call is left undecided between `C09_blocks_reuse` and `C09_admits_reuse`) -/
+theorem C09_condFree_iff_not_effective :
+    (∀ o f, opCondFree (.cond o f) = !opEffective (.cond o f)) ∧
+    (∀ es, opCondFree (.clauseWhere es) = !opEffective (.clauseWhere es)) := by
+  constructor
+  · intro o f; rfl
+  · intro es; simp [opCondFree, opEffective]
+
+/-- the former witnesses are rejected by the repaired guard -/
+theorem C09_empty_where_repaired :
+    let cfg : StmtCfg := { soft := none, modelKey := [], allowGlobal := false }
+    finRejected true cfg (stmtRun cfg StmtState.fresh [.clauseWhere []]) .update [] false = true ∧
+    finRejected true cfg (stmtRun cfg StmtState.fresh [.clauseWhere []]) .delete [] false = true ∧
+    finRejected true { cfg with soft := some { col := "deleted_at", kind := .eq, val := .nil, id := 0 } }
+      (stmtRun { cfg with soft := some { col := "deleted_at", kind := .eq, val := .nil, id := 0 } } StmtState.fresh [.unscoped, .clauseWhere []])
+      .delete [] false = true := by
+  decide
+
+/-- the repair is conservative: the two guards differ ONLY on an entry without expressions next to no marker — every
+    decision about a statement without WHERE entry, with a non-empty entry, or with the soft-delete marker is unchanged -/
+theorem C09_repair_conservative (ag : Bool) (s : WhereState)
+    (h : s.exprs ≠ some [] ∨ s.softEnabled = true) : missingWhere true ag s = missingWhere false ag s := by
+  unfold missingWhere
+  cases ag with
+  | true => rfl
+  | false =>
+    cases he : s.exprs with
+    | none => rfl
+    | some es =>
+      cases hs : s.softEnabled with
+      | true => rfl
+      | false =>
+        cases es with
+        | nil => rcases h with h | h
+                 · exact absurd he h
+                 · rw [hs] at h; cases h
+        | cons _ _ => rfl
+
+/-- the guard of the tree that is being verified (regenerated fact `Gen.guardRejectsEmptyWhere`, extract/gen_c09_fix.go):
+    EITHER it counts the expressions of the WHERE entry and the full-strength blocking theorem holds for it, OR it is the
+    guard that only tests the presence of the entry and the listed witness of F26 passes it -/
+theorem C09_blocks_reuse_current_tree :
+    (Gen.guardRejectsEmptyWhere = true ∧
+      ∀ (cfg : StmtCfg), cfg.modelKey = [] → cfg.allowGlobal = false →
+      ∀ (ops : List StmtOp), (∀ op ∈ ops, opCondFree op = true) →
+      ∀ (k : FinKind), k.isWrite = true → ∀ (same : Bool),
+        finRejected Gen.guardRejectsEmptyWhere cfg (stmtRun cfg StmtState.fresh ops) k [] same = true) ∨
+    (Gen.guardRejectsEmptyWhere = false ∧
+      finRejected Gen.guardRejectsEmptyWhere { soft := none, modelKey := [], allowGlobal := false }
+        (stmtRun { soft := none, modelKey := [], allowGlobal := false } StmtState.fresh [.clauseWhere []]) .update [] false = false) := by
+  cases hg : Gen.guardRejectsEmptyWhere with
+  | true => exact Or.inl ⟨rfl, fun cfg hk hag ops ho k hw same => C09_blocks_reuse cfg hk hag ops ho k hw same⟩
+  | false => exact Or.inr ⟨rfl, by decide⟩
+
+/-- the guard function and its soft-delete branch were found by the extractor (the fact above is not about nothing) -/
+theorem C09_guard_fn_found : Gen.guardFnFound = true ∧ Gen.guardSoftBranchFound = true := by decide
 
 /-! ### position of the guard in the regenerated `Update` / `Delete` handlers -/
 
